@@ -467,10 +467,11 @@ def _finish_stmts(rel, what, code, d, opts, ghost_lines):
     if "bool_assign" in opts.get("desugar", ""):
         # `x &= e;` / `x |= e;` on bool locals -> `x = x && (e);` / `x = x || (e);` (Verus has no non-short-circuit bool
         # operators).  Same value whenever `e` has no side effect -- say so in the job header.
-        code2 = re.sub(r"\b([A-Za-z_]\w*)\s*&=\s*([^;]+);", lambda m: "%s = %s && (%s);" % (m.group(1), m.group(1), m.group(2).strip()), code)
-        code2 = re.sub(r"\b([A-Za-z_]\w*)\s*\|=\s*([^;]+);", lambda m: "%s = %s || (%s);" % (m.group(1), m.group(1), m.group(2).strip()), code2)
+        # the right-hand side is evaluated FIRST and unconditionally, exactly like the compound operator does
+        code2 = re.sub(r"\b([A-Za-z_]\w*)\s*&=\s*([^;]+);", lambda m: "{ let verif_rhs: bool = %s; %s = %s && verif_rhs; }" % (m.group(2).strip(), m.group(1), m.group(1)), code)
+        code2 = re.sub(r"\b([A-Za-z_]\w*)\s*\|=\s*([^;]+);", lambda m: "{ let verif_rhs: bool = %s; %s = %s || verif_rhs; }" % (m.group(2).strip(), m.group(1), m.group(1)), code2)
         if code2 != code:
-            d.append("%s: `x &= e;` / `x |= e;` on bools desugared to `x = x && (e);` / `x = x || (e);`" % what)
+            d.append("%s: `x &= e;` / `x |= e;` on bools desugared to `{ let t = e; x = x && t; }` / `{ let t = e; x = x || t; }` (right side evaluated first, unconditionally)" % what)
         code = code2
     for pre in [p for p in opts.get("dropstmt", "").split("@@") if p]:
         code, cnt = drop_statements(code, pre, what)
